@@ -24,6 +24,7 @@ import (
 	"0chain.net/core/encryption"
 	"0chain.net/smartcontract/minersc"
 	"github.com/0chain/common/core/currency"
+	"github.com/0chain/common/core/statecache"
 	"github.com/0chain/common/core/util"
 	"verifharness/lib/corr"
 	"verifharness/lib/engine"
@@ -60,6 +61,28 @@ func (v *valNode) UnmarshalMsg(b []byte) ([]byte, error) {
 	return b[20:], err
 }
 
+// cvalNode is a CACHEABLE stored value (implements statecache.Value): even keys use it, so that the state-cache
+// layers (transaction cache → block cache → state cache) take part in the runs exactly as for real contract objects.
+type cvalNode struct{ valNode }
+
+func (v *cvalNode) Clone() statecache.Value { c := *v; return &c }
+func (v *cvalNode) CopyFrom(x interface{}) bool {
+	if o, ok := x.(*cvalNode); ok {
+		*v = *o
+		return true
+	}
+	return false
+}
+
+func newVal(k string, n uint64) util.MPTSerializable {
+	if cacheableKey(k) {
+		return &cvalNode{valNode{n}}
+	}
+	return &valNode{n}
+}
+
+func cacheableKey(k string) bool { return strings.HasSuffix(k, "0") || strings.HasSuffix(k, "2") }
+
 type scriptSC struct{}
 
 func (scriptSC) GetHandlerStats(ctx context.Context, params url.Values) (interface{}, error) {
@@ -85,7 +108,7 @@ func (scriptSC) Execute(t *transaction.Transaction, fn string, input []byte, b c
 		case "s":
 			b.AddSignedTransfer(&state.SignedTransfer{Transfer: *state.NewTransfer(o.From, o.To, currency.Coin(o.Amt))})
 		case "w":
-			if _, err := b.InsertTrieNode(scriptAddr+o.Key, &valNode{o.Val}); err != nil {
+			if _, err := b.InsertTrieNode(scriptAddr+o.Key, newVal(o.Key, o.Val)); err != nil {
 				return "", err
 			}
 		case "d":
@@ -148,10 +171,25 @@ func (x *world) show() string {
 	}
 	var sp []string
 	sctx := x.w.SCtx()
+	cacheMismatch := 0
 	for k := uint64(0); k < nKeys; k++ {
-		var v valNode
-		if err := sctx.GetTrieNode(scriptAddr+keyName(k), &v); err == nil {
-			sp = append(sp, fmt.Sprintf("%d:%d", k, v.V))
+		// the value a contract would see (through the cache layers) ...
+		v := newVal(keyName(k), 0)
+		errC := sctx.GetTrieNode(scriptAddr+keyName(k), v)
+		// ... and the value actually stored in the trie
+		var raw valNode
+		errT := x.w.State.GetNodeValue(util.Path(encryption.Hash(scriptAddr+keyName(k))), &raw)
+		val := func() uint64 {
+			if c, ok := v.(*cvalNode); ok {
+				return c.V
+			}
+			return v.(*valNode).V
+		}()
+		if (errC == nil) != (errT == nil) || (errC == nil && val != raw.V) {
+			cacheMismatch++
+		}
+		if errC == nil {
+			sp = append(sp, fmt.Sprintf("%d:%d", k, val))
 		}
 	}
 	// total over ALL client-state leaves of the trie (not just the id universe); unexpected leaf changes
@@ -166,7 +204,7 @@ func (x *world) show() string {
 			}
 		}
 	}
-	unexpected := 0
+	unexpected := cacheMismatch
 	for p, v := range lv {
 		if old, ok := x.leaves[p]; !ok || string(old) != string(v) {
 			if !x.expectedPath(p) {
@@ -209,6 +247,42 @@ func impl(ops []string) []string {
 				}
 			}()
 			switch w[0] {
+			case "genesis":
+				// the REAL mustInitGBState (through the overlay hook) on an empty state
+				engine.SetFeeEnabled(true)
+				is := &state.InitStates{}
+				for _, g := range w[1:] {
+					parts := strings.Split(g, "/")
+					hd := strings.Split(parts[0], ":")
+					id, _ := strconv.Atoi(hd[0])
+					tk, _ := strconv.ParseUint(hd[1], 10, 64)
+					st := state.InitState{ID: idOf(id), Tokens: currency.Coin(tk)}
+					for _, c := range parts[1:] {
+						f := strings.Split(c, ":")
+						cid, _ := strconv.Atoi(f[0])
+						ct, _ := strconv.ParseUint(f[1], 10, 64)
+						st.State = append(st.State, state.IDTokens{ID: idOf(cid), Tokens: currency.Coin(ct)})
+					}
+					is.States = append(is.States, st)
+				}
+				panicked := false
+				wd, err := engine.NewWorld(nil, func(sctx *cstate.StateContext) (e error) {
+					defer func() {
+						if r := recover(); r != nil {
+							panicked = true
+						}
+					}()
+					engine.Chain.VerifMustInitGBState(is, sctx)
+					return nil
+				})
+				if panicked || err != nil {
+					outs[i] = "panic"
+					x = nil
+					return
+				}
+				x = &world{w: wd}
+				x.leaves, _ = wd.Leaves()
+				outs[i] = "ok " + x.show()
 			case "init":
 				engine.SetFeeEnabled(w[1] == "1")
 				bal := map[string]currency.Coin{}
@@ -243,6 +317,10 @@ func impl(ops []string) []string {
 				x.leaves, _ = wd.Leaves()
 				outs[i] = "ok"
 			case "txn":
+				if x == nil {
+					outs[i] = "no-chain"
+					return
+				}
 				sender, _ := strconv.Atoi(w[2])
 				value, _ := strconv.ParseUint(w[5], 10, 64)
 				fee, _ := strconv.ParseUint(w[6], 10, 64)
@@ -364,6 +442,51 @@ func amount(r *rand.Rand, hint uint64) uint64 {
 	}
 }
 
+// genesisLine: an initial-state file: contract entries whose declared tokens mostly sum to the supply, client
+// allocations mostly within the contract's tokens; malformed variants (over-allocation, wrong total, overflow).
+func genesisLine(r *rand.Rand) string {
+	const supply = uint64(4000000000000000000)
+	nsc := 1 + r.Intn(3)
+	perm := r.Perm(nIDs)
+	used := 0
+	left := supply
+	var parts []string
+	for k := 0; k < nsc; k++ {
+		scID := perm[used]
+		used++
+		tokens := left
+		if k < nsc-1 {
+			tokens = uint64(r.Int63n(int64(left/2) + 1))
+		}
+		left -= tokens
+		switch r.Intn(14) {
+		case 0:
+			tokens++ // total no longer the supply
+		case 1:
+			tokens = 1<<64 - 1 // overflow of the running total (if another entry follows) or wrong total
+		}
+		s := fmt.Sprintf("%d:%d", scID, tokens)
+		ncl := r.Intn(3)
+		budget := tokens
+		for c := 0; c < ncl && used < nIDs; c++ {
+			amt := uint64(r.Int63n(int64(budget%(1<<62)) + 1))
+			switch r.Intn(12) {
+			case 0:
+				amt = budget + 1 // over-allocation: must panic, never wrap
+			case 1:
+				amt = 1<<64 - 1
+			}
+			if amt <= budget {
+				budget -= amt
+			}
+			s += fmt.Sprintf("/%d:%d", perm[used], amt)
+			used++
+		}
+		parts = append(parts, s)
+	}
+	return "genesis " + strings.Join(parts, " ")
+}
+
 func up(r *rand.Rand) string {
 	if r.Intn(16) == 0 {
 		return "u"
@@ -398,6 +521,12 @@ func gen(prop string) func(r *rand.Rand, thorough bool, i int) []string {
 			}
 		}
 		ops := []string{strings.Join(init, " ")}
+		if r.Intn(6) == 0 {
+			ops = []string{genesisLine(r)}
+			for k := range nonce {
+				nonce[k] = 1 // mustInitialState gives genesis accounts nonce 1 (ids not listed have 0: a few wrong guesses)
+			}
+		}
 		n := 4 + r.Intn(14)
 		if thorough {
 			n = 4 + r.Intn(60)
@@ -517,6 +646,21 @@ func oracle(prop string) func(ops, outs []string) *corr.Violation {
 		two64 := new(big.Int).Lsh(big.NewInt(1), 64)
 		for i, op := range ops {
 			w := strings.Fields(op)
+			if w[0] == "genesis" {
+				feeOn = true
+				if outs[i] == "panic" {
+					return nil // node refuses to start: no chain, nothing to judge
+				}
+				_, cur, store, tot, _, ok := parseState(outs[i])
+				if !ok {
+					return mk("unparsable-answer", outs[i], i)
+				}
+				if prop == "C01" && tot != "4000000000000000000" {
+					return mk("genesis-total-not-supply", "genesis accepted with total "+tot, i)
+				}
+				prev, prevStore, prevTot = cur, store, tot
+				continue
+			}
 			if w[0] == "init" {
 				feeOn = w[1] == "1"
 				prev = map[int]acct{}
@@ -737,6 +881,12 @@ func main() {
 			return 1200
 		},
 		Fixed: [][]string{
+			{"genesis 1:3999999999999999000/5:100/6:7 2:1000", "txn send 5 6 1 10 1 2 -"},
+			{"genesis 1:4000000000000000000/5:4000000000000000001"},                       // over-allocation: must panic
+			{"genesis 1:4000000000000000000/5:18446744073709551615/6:2"},                  // sum of client tokens overflows
+			{"genesis 1:3999999999999999999 2:2"},                                         // wrong total
+			{"genesis 1:18446744073709551615 2:4000000000000000001"},                      // running total overflows
+
 			{"init 0 2:1000:0 3:600:0", "txn send 2 2u 1 10 0 1 -", "txn send 2 3u 1 7 0 2 -", "txn sc 2 1 1 0 0 3 ok|t,2,3u,5;t,3,2,1", "txn send 2 3u 1 0 0 1 -"},
 			{"init 1 2:1000:4 3:5:0", "txn send 2 3 1 100 10 5 -", "txn sc 2 1 1 0 10 6 ok|t,2,3,50;w,1,9;s,3,2,1", "txn sc 2 1 1 0 10 7 chg|w,1,1;t,1,3,5", "txn sc 2 1 1 0 10 8 int", "txn send 2 3 1 100 10 5 -"},
 			{"init 1 2:18446744073709551615:0 3:1:0", "txn send 2 3 1 1 0 1 -", "txn send 3 2 1 1 0 1 -", "txn send 3 2 1 2 0 1 -"},
